@@ -217,3 +217,67 @@ def gen_file(repo):
             "   `Gen.skelShape = codeSkelShape`, the shapes Model/Morph.lean is defined from. -/\n"
             "import WntrModel.Model.MorphShape\nnamespace Wntr.Morph.Gen\nopen Wntr.Morph\n\n" + lean_split(a, "splitShape") + "\n" + lean_skel(b, "skelShape") +
             "\nend Wntr.Morph.Gen\n")
+
+
+# ----------------------------------------------------------------------------- merge formulas as expression trees
+
+
+def mx(node, props):
+    """Python expression -> Lean term of type MX"""
+    from fractions import Fraction
+
+    if isinstance(node, ast.BinOp):
+        op = {ast.Add: "add", ast.Sub: "sub", ast.Mult: "mul", ast.Div: "div", ast.Pow: "pow"}.get(type(node.op))
+        if op is None:
+            raise Bad("operator %s in a merge formula" % type(node.op).__name__)
+        return "(.%s %s %s)" % (op, mx(node.left, props), mx(node.right, props))
+    if isinstance(node, ast.UnaryOp) and isinstance(node.op, ast.USub):
+        return "(.neg %s)" % mx(node.operand, props)
+    if isinstance(node, ast.Constant) and isinstance(node.value, (int, float)) and not isinstance(node.value, bool):
+        fr = Fraction(repr(node.value))
+        return "(.lit %d %d)" % (fr.numerator, fr.denominator)
+    if isinstance(node, ast.Attribute) and isinstance(node.value, ast.Name):
+        owner = {"pipe0": "pipe0", "pipe1": "pipe1", "dominant_pipe": "dominant"}.get(node.value.id)
+        if owner is None:
+            raise Bad("unknown object %s in a merge formula" % node.value.id)
+        return "(.var %s)" % lstr("%s.%s" % (owner, node.attr))
+    if isinstance(node, ast.Subscript) and U(node.value) == "props":
+        k = node.slice.value if isinstance(node.slice, ast.Constant) else None
+        if k not in props:
+            raise Bad("props[%r] used before it is set" % k)
+        return props[k]
+    raise Bad("cannot translate %s" % U(node))
+
+
+def merge_mx(src, fname):
+    m = fn(ast.parse(src), fname, "_Skeletonize")
+    props, status = {}, None
+    dom = [U(s) for s in m.body if isinstance(s, ast.Assign) and U(s.targets[0]) == "dominant_pipe"]
+    if dom != ["dominant_pipe = self._select_dominant_pipe(pipe0, pipe1)"]:
+        raise Bad("%s: dominant pipe is %s" % (fname, dom))
+    for s in m.body:
+        if isinstance(s, ast.Assign) and isinstance(s.targets[0], ast.Subscript) and U(s.targets[0].value) == "props":
+            k = s.targets[0].slice.value
+            if k == "status":
+                status = U(s.value)
+            else:
+                props[k] = mx(s.value, props)
+    if set(props) != {"length", "diameter", "minorloss", "roughness"} or status is None:
+        raise Bad("%s sets %s" % (fname, sorted(props)))
+    return props, status
+
+
+def lean_merge(src, fname, name):
+    p, st = merge_mx(src, fname)
+    return "def %s : MergeMX :=\n  { length := %s,\n    diam := %s,\n    minor := %s,\n    status := %s,\n    rough := %s }\n" % (
+        name, p["length"], p["diameter"], p["minorloss"], lstr(st), p["roughness"])
+
+
+_gen_file0 = gen_file
+
+
+def gen_file(repo):
+    base = _gen_file0(repo)
+    src = open(os.path.join(repo, "wntr/morph/skel.py")).read()
+    extra = lean_merge(src, "_series_merge_properties", "seriesMX") + "\n" + lean_merge(src, "_parallel_merge_properties", "parallelMX")
+    return base.replace("\nend Wntr.Morph.Gen\n", "\n" + extra + "\nend Wntr.Morph.Gen\n")
